@@ -1,0 +1,58 @@
+//go:build verif
+
+package core
+
+// Contracts for the text form of the mode enumerations of this package
+// (property C37: "every mode written as text is read back as the same
+// value"). Comment-only file: compiled only under the "verif" build tag,
+// contains no code. The "//@" lines are read by govc.
+//
+// For every supported (named, non-default) value v with documented name N:
+// the marshalling method writes v as exactly the bytes of N and reports no
+// error [written]; UnmarshalText, given exactly the bytes of N, reports no
+// error and stores v [readback]; it accepts nothing but supported values
+// [accepted] and leaves the destination alone when it fails [rejected]. The
+// round trip "UnmarshalText(MarshalText(v)) yields v and no error" is the
+// instance of [readback] for the bytes that [written] describes.
+
+// textis(b, s): the byte slice b spells the string s.
+//@ pred textis(b, s) = len(b) == len(s) && forall i in 0..len(s) :: b[i] == s[i]
+
+//@ func (SynchronizationMode).MarshalText
+//@   ensures[written] m == SynchronizationMode_SynchronizationModeTwoWaySafe ==> result1 == nil && textis(result0, "two-way-safe")
+//@   ensures[written] m == SynchronizationMode_SynchronizationModeTwoWayResolved ==> result1 == nil && textis(result0, "two-way-resolved")
+//@   ensures[written] m == SynchronizationMode_SynchronizationModeOneWaySafe ==> result1 == nil && textis(result0, "one-way-safe")
+//@   ensures[written] m == SynchronizationMode_SynchronizationModeOneWayReplica ==> result1 == nil && textis(result0, "one-way-replica")
+
+//@ func (*SynchronizationMode).UnmarshalText
+//@   requires m != nil
+//@   ensures[readback] textis(textBytes, "two-way-safe") ==> result == nil && deref(m) == SynchronizationMode_SynchronizationModeTwoWaySafe
+//@   ensures[readback] textis(textBytes, "two-way-resolved") ==> result == nil && deref(m) == SynchronizationMode_SynchronizationModeTwoWayResolved
+//@   ensures[readback] textis(textBytes, "one-way-safe") ==> result == nil && deref(m) == SynchronizationMode_SynchronizationModeOneWaySafe
+//@   ensures[readback] textis(textBytes, "one-way-replica") ==> result == nil && deref(m) == SynchronizationMode_SynchronizationModeOneWayReplica
+//@   ensures[accepted] result == nil ==> deref(m) == SynchronizationMode_SynchronizationModeTwoWaySafe || deref(m) == SynchronizationMode_SynchronizationModeTwoWayResolved || deref(m) == SynchronizationMode_SynchronizationModeOneWaySafe || deref(m) == SynchronizationMode_SynchronizationModeOneWayReplica
+//@   ensures[rejected] result != nil ==> deref(m) == old(deref(m))
+
+//@ func (PermissionsMode).MarshalText
+//@   ensures[written] m == PermissionsMode_PermissionsModePortable ==> result1 == nil && textis(result0, "portable")
+//@   ensures[written] m == PermissionsMode_PermissionsModeManual ==> result1 == nil && textis(result0, "manual")
+
+//@ func (*PermissionsMode).UnmarshalText
+//@   requires m != nil
+//@   ensures[readback] textis(textBytes, "portable") ==> result == nil && deref(m) == PermissionsMode_PermissionsModePortable
+//@   ensures[readback] textis(textBytes, "manual") ==> result == nil && deref(m) == PermissionsMode_PermissionsModeManual
+//@   ensures[accepted] result == nil ==> deref(m) == PermissionsMode_PermissionsModePortable || deref(m) == PermissionsMode_PermissionsModeManual
+//@   ensures[rejected] result != nil ==> deref(m) == old(deref(m))
+
+//@ func (SymbolicLinkMode).MarshalText
+//@   ensures[written] m == SymbolicLinkMode_SymbolicLinkModeIgnore ==> result1 == nil && textis(result0, "ignore")
+//@   ensures[written] m == SymbolicLinkMode_SymbolicLinkModePortable ==> result1 == nil && textis(result0, "portable")
+//@   ensures[written] m == SymbolicLinkMode_SymbolicLinkModePOSIXRaw ==> result1 == nil && textis(result0, "posix-raw")
+
+//@ func (*SymbolicLinkMode).UnmarshalText
+//@   requires m != nil
+//@   ensures[readback] textis(textBytes, "ignore") ==> result == nil && deref(m) == SymbolicLinkMode_SymbolicLinkModeIgnore
+//@   ensures[readback] textis(textBytes, "portable") ==> result == nil && deref(m) == SymbolicLinkMode_SymbolicLinkModePortable
+//@   ensures[readback] textis(textBytes, "posix-raw") ==> result == nil && deref(m) == SymbolicLinkMode_SymbolicLinkModePOSIXRaw
+//@   ensures[accepted] result == nil ==> deref(m) == SymbolicLinkMode_SymbolicLinkModeIgnore || deref(m) == SymbolicLinkMode_SymbolicLinkModePortable || deref(m) == SymbolicLinkMode_SymbolicLinkModePOSIXRaw
+//@   ensures[rejected] result != nil ==> deref(m) == old(deref(m))
